@@ -387,6 +387,7 @@ Proof.
     cbv beta. intros cd base st1 (Hc1 & Hm1 & Hcd) Hg1.
     eapply rel_bind; [apply (call_params_rel base params H2 cd [] st1); assumption|].
     cbv beta. intros cd' ps st2 (Hc2 & Hm2 & Hcd') Hg2.
+    apply rel_modify_ghost; try reflexivity.
     apply call_enter_rel; try assumption.
     eapply find_template_wf; [exact Hreg | exact Ef].
   - (* NMsg *)
